@@ -136,6 +136,16 @@ func (i *interpreter) scheduleNext(cur *thread, park bool) {
 // visible marks a visible operation: with schedule exploration enabled and
 // preemption budget left, the path may switch to another runnable thread here.
 func (i *interpreter) visible(fr *frame, what string) {
+	if i.faultFn != nil && i.atomic == 0 && i.cur != nil {
+		if i.decide("fault:"+what, make([]*Term, 2)) == 1 {
+			fn := i.faultFn
+			i.faultFn = nil
+			i.events = append(i.events, "fault")
+			i.atomic++
+			call(i, fr, 0, fn, nil)
+			i.atomic--
+		}
+	}
 	if !i.explore || i.preempts <= 0 || len(i.runq) == 0 || i.cur == nil || i.atomic > 0 {
 		return
 	}
